@@ -94,9 +94,9 @@ def resolve (ob : ObsBoard) (id : String) : Target :=
     | some (e, _) => .edge e.src e.dst e.sa e.da e.idx
     | none => .none
 
-def elemsStr (ob : ObsBoard) : List (String × String) :=
-  (zipIds ob.board.g.objs ob.objIds).map (fun (o, i) => ("o:" ++ o.label, i)) ++
-  (zipIds ob.board.g.edges ob.edgeIds).map (fun (e, i) => ("e:" ++ e.label, i))
+def elemsStr (ob : ObsBoard) : List ((Bool × String) × String) :=
+  (zipIds ob.board.g.objs ob.objIds).map (fun (o, i) => ((true, o.label), i)) ++
+  (zipIds ob.board.g.edges ob.edgeIds).map (fun (e, i) => ((false, e.label), i))
 
 def specfalse (sig detail : String) : Verdict := .specfalse sig detail
 def describe (op : Op) : String :=
@@ -315,13 +315,43 @@ def handleC40 (j : Json) (op : Op) (o : Json) : Except String Verdict := do
   let dm ← decDeltas d
   match firstDisagreement (elemsStr bb) (elemsStr ab) dm with
   | some (l, i, some i') =>
-    let what := if l.startsWith "o:" then "object" else "edge"
+    let what := if l.1 then "object" else "edge"
     return specfalse s!"{op.kind}-{what}-id-not-predicted" s!"{describe op}: {i} became {i'}, predicted {lookupD dm i}"
   | some (l, i, none) =>
-    let what := if l.startsWith "o:" then "object" else "edge"
+    let what := if l.1 then "object" else "edge"
     return specfalse s!"{op.kind}-prediction-for-removed-{what}" s!"{describe op}: {i} is removed but predicted to become {lookupD dm i}"
   | none => pure ()
   if !deltasAgree (elemsStr bb) (elemsStr ab) dm then return .bad "deltasAgree/firstDisagreement inconsistent"
+  -- refinement tie of the theorem's objects: (1) the real edit is the abstract edit, (2) the real prediction changes
+  -- exactly the elements the abstract prediction `Spec.*Deltas` changes
+  let b := bb.board.g
+  let a := ab.board.g
+  let spec : Option (Diagram × List (Spec.Id × Spec.Id)) :=
+    match op.kind, resolve bb op.key with
+    | "delete", .obj x =>
+      if op.attr != "" then none else
+      let ren := observedRen b a x
+      some (Spec.deleteObj b x ren, Spec.deleteObjDeltas b x ren)
+    | "delete", .edge s t sa da i =>
+      if op.attr != "" then none else
+      (b.findEdge s t sa da i).map fun e => (Spec.deleteEdge b e, Spec.deleteEdgeDeltas b e)
+    | "rename", .obj x =>
+      ((b.findObj x).bind fun xo => objByLabel a xo.label).map fun xo' => (Spec.moveWith b x xo'.path, Spec.moveWithDeltas b x xo'.path)
+    | "move", .obj x =>
+      if op.key == op.newKey then none else
+      let dest : Path := op.newKeyPath.getD []
+      let withDesc := op.desc || samePath dest.dropLast x.dropLast
+      ((b.findObj x).bind fun xo => objByLabel a xo.label).map fun xo' =>
+        if withDesc then (Spec.moveWith b x xo'.path, Spec.moveWithDeltas b x xo'.path)
+        else (Spec.moveWithout b x xo'.path (observedRen b a x), Spec.moveWithoutDeltas b x xo'.path (observedRen b a x))
+    | _, _ => none
+  if let some (d', sd) := spec then
+    if !diagramsEqual d' a then return .mismatch s!"{op.kind}-refinement" (describe op)
+    let ids := (zipIds b.objs bb.objIds).map (fun (o, i) => (Spec.Obj.id o, i)) ++
+               (zipIds b.edges bb.edgeIds).map (fun (e, i) => (Spec.Edge.id e, i))
+    for (sid, istr) in ids do
+      if inDom sd sid != inDom dm istr then
+        return .mismatch s!"{op.kind}-deltas-domain" s!"{describe op}: {istr} predicted to change by {if inDom dm istr then "the implementation" else "the abstract prediction"} only"
   return .ok
 
 def handleC41 (op : Op) (o : Json) : Except String Verdict := do
